@@ -88,10 +88,25 @@ func (s *Sniffer) SniffQuic() (d string, err error) {
 	s.quicNextRead = s.buf.Len()
 	sni, err := extractSniFromTls(quicutils.NewLinearLocator(s.quicCryptos))
 	if err != nil {
-		s.needMore = true
+		// Ask for more datagrams only while the ClientHello is still incomplete. Once the
+		// whole handshake message has been reassembled the answer is final (no server name,
+		// or not a ClientHello we understand): holding the flow back cannot change it.
+		if !quicClientHelloComplete(s.quicCryptos) {
+			s.needMore = true
+		}
 		return "", ErrNotFound
 	}
 	return sni, nil
+}
+
+// quicClientHelloComplete reports whether the reassembled CRYPTO stream covers the whole first
+// handshake message (4-byte header plus the uint24 length it announces) without a gap.
+func quicClientHelloComplete(cryptos []*quicutils.CryptoFrameOffset) bool {
+	if len(cryptos) == 0 || cryptos[0].UpperAppOffset != 0 || len(cryptos[0].Data) < 4 {
+		return false
+	}
+	d := cryptos[0].Data
+	return len(d) >= 4+(int(d[1])<<16|int(d[2])<<8|int(d[3]))
 }
 
 func sniffQuicBlock(s *Sniffer, cryptos []*quicutils.CryptoFrameOffset, buf []byte) (new []*quicutils.CryptoFrameOffset, next []byte, err error) {
